@@ -218,6 +218,6 @@ def impossible_fault(events, k, errno_name):
     `assert_eq!(written, 0)`) before falling back to read/write. Injecting them into a later call of the same copy is
     not a behaviour of any file system, so such (k, errno) pairs are not enumerated."""
     ev = events[k]
-    if ev.call not in ("copy_file_range", "sendfile") or errno_name not in ("EPERM", "EOPNOTSUPP", "ENOSYS"):
+    if ev.call not in ("copy_file_range", "sendfile") or errno_name not in ("EPERM", "EOPNOTSUPP", "ENOSYS", "EXDEV"):
         return False
     return any(p.call == ev.call and p.path == ev.path and p.ret > 0 for p in events[:k])
